@@ -508,6 +508,11 @@ class Scenario:
         if md["op"] == "scope":
             self._register_scope(ctx, mi, md)
             return
+        if md["op"] == "insert_function":
+            p = self.make_patch(md.get("uid", mi), md["patch"])
+            self.mod_patches[mi] = p
+            self.symbols[md["name"]] = ctx.register_insert_function(md["name"], p)
+            return
         blk = self.blocks[md["blk"]]
         at = self.boundary(md["blk"], md["at"])
         if md["op"] == "insert":
